@@ -512,7 +512,21 @@ class Evaluator:
         if '!=0' in rel: out &= {'<0', '>0'}
         if '==0' in rel: out &= {'=0'}
         if len(out) < 3: return out
-        # single monomial / sums of monomials with known-sign atoms
+        # modulo a known equality e == 0:  p has the sign of p + e and of p - e  (n1 == zero and n1 != n2 give n2 != zero)
+        if not getattr(s, '_in_eq', False):
+            eqs = [k_ for k_, r_ in s.facts.items() if '==0' in r_]
+            if eqs and len(eqs) <= 8:
+                s._in_eq = True
+                try:
+                    for k_ in eqs:
+                        e_ = term_from_key(k_)
+                        if not isinstance(e_, Poly): continue
+                        q_ = p + e_
+                        if q_.real_const() is None and q_.key() not in s.facts: continue
+                        sg_ = s.sign(q_)
+                        if len(sg_) < 3: return sg_
+                finally:
+                    s._in_eq = False
         signs = []
         for k, (a, b) in p.t.items():
             if b != 0: return out
@@ -547,6 +561,7 @@ class Evaluator:
         if r[0] == 'ext':
             if r[1] in ('math.pi', 'numpy.pi', 'cmath.pi', 'scipy.pi'): return Poly.atom('pi')
             if r[1] in ('math.inf', 'numpy.inf', 'cmath.inf'): return Poly.atom('inf')
+            if r[1].startswith('builtins.') and r[1].count('.') == 1: return Ref('builtin', None, None, r[1].split('.')[1])        # builtins.filter is filter
             if r[1].split('.')[0] in ('math', 'cmath') and r[1].split('.')[-1] in NPFUN | {'degrees', 'radians', 'phase'}: return Ref('npfun', None, None, SYN.get(r[1].split('.')[-1], r[1].split('.')[-1]))
             return Ref('ext', None, None, r[1])
         if r[0] == 'unresolved': return Opq('?', f'unresolved {r[1].short}.{r[2]}')
@@ -652,6 +667,10 @@ class Evaluator:
                     or (isinstance(a, (list, Comp)) and isinstance(b, Poly) and b.as_atom() is not None and not isinstance(a, list)) or (isinstance(b, Comp) and isinstance(a, Poly) and a.as_atom() is not None):
                 parts_ = []
                 for x_ in (a, b): parts_ += list(x_.k[1:]) if (isinstance(x_, Opq) and x_.k[0] == 'concat') else [x_]
+                if any(isinstance(x_, list) and not x_ for x_ in parts_):
+                    parts_ = [x_ for x_ in parts_ if not (isinstance(x_, list) and not x_)]         # [] + xs has the items of xs
+                    if len(parts_) == 1 and (isinstance(parts_[0], (list, Comp)) or (isinstance(parts_[0], Opq) and parts_[0].k[0] in ('sorted', 'list'))): return parts_[0]
+                    if not parts_: return []
                 return Opq('concat', *parts_)
         if isinstance(op, ast.Mult) and isinstance(a, (list, tuple)) and isinstance(b, Poly) and b.real_const() is not None and b.real_const().denominator == 1:
             return a * int(b.real_const())
@@ -727,6 +746,7 @@ class Evaluator:
         if isinstance(v, bool): return v
         if isinstance(v, BoolSel): return s.mkbool(v.op, [v.g, s.truth(v.rest)])
         if isinstance(v, Opq) and (s.facts or s.assumed): return s.refold(v)
+        if isinstance(v, Cond) and (s.facts or s.assumed): return s.mkcond(v.g, s.truth(v.a), s.truth(v.b))
         if v is None: return False
         if isinstance(v, (list, tuple, dict, str)): return len(v) > 0
         if isinstance(v, Poly):
@@ -1066,6 +1086,7 @@ class Evaluator:
             return tuple(s.elem_of(x, level) for x in it.k[1:])
         if isinstance(it, Opq) and it.k and it.k[0] == 'enumerate':
             return (Poly.atom(('idx', level, tkey(it.k[1]))), s.elem_of(it.k[1], level))
+        if isinstance(it, Opq) and len(it.k) == 2 and it.k[0] == 'repeat': return it.k[1]          # every item of repeat(x) is x
         pr = _product_args(it)
         if pr is not None:
             return tuple(s.elem_of(x, (level, i) if len(pr) > 1 else level) for i, x in enumerate(pr))
@@ -1091,6 +1112,10 @@ class Evaluator:
         if isinstance(v, list) and attr in ('real', 'imag') and not any(isinstance(x, (list, tuple, dict)) for x in v):
             return [s.getattr(x, attr, mod, depth) for x in v]          # an array written out element by element
         if attr == '__name__' and isinstance(v, (Ref, Closure)) and getattr(v, 'name', None): return v.name
+        if s.atom_methods and isinstance(v, Poly) and (v.as_atom(), attr) in s.atom_methods and depth < s.depth_limit:
+            mm_, fn_ = s.atom_methods[(v.as_atom(), attr)]
+            if 'property' in s.prog.decorators(fn_):          # a declared property of a typed atom is its body over the atom
+                return s.call_fn(fn_, mm_, [v], {}, {'__parent__': None}, depth + 1)
         if isinstance(v, Ref):
             if v.kind == 'module':
                 r = s.prog.resolve_expr(v.mod, ast.Name(id=attr, ctx=ast.Load()))
@@ -1109,6 +1134,7 @@ class Evaluator:
                     if attr == 'e': return Poly.atom('e')
                     if attr == 'linalg': return Ref('ext', None, None, 'numpy.linalg')
                     return Ref('npfun', None, None, SYN.get(attr, attr))
+                if v.name == 'builtins': return Ref('builtin', None, None, attr)          # builtins.filter is filter
                 return Ref('ext', None, None, v.name + '.' + attr)
             if v.kind == 'class':
                 # class attribute (e.g. RectFunction.wavetype default, Enum member)
@@ -1188,6 +1214,11 @@ class Evaluator:
             sl_ = (None, a_[0], None) if len(a_) == 1 else (a_[0], a_[1], a_[2] if len(a_) == 3 else None)
         if sl_ is not None:
             lo, up, st = sl_
+            for i_, part_ in enumerate((lo, up, st)):
+                if isinstance(part_, Cond):       # x[::-1 if g else 1]: the slice of each alternative
+                    alt = lambda q_: s.e_Subscript(ast.copy_location(ast.Subscript(value=_TermNode(v), slice=ast.Slice(
+                        *[(_TermNode(q_) if j_ == i_ else (None if p_ is None else _TermNode(p_))) for j_, p_ in enumerate((lo, up, st))]), ctx=ast.Load()), e), env, mod, depth)
+                    return Cond(part_.g, alt(part_.a), alt(part_.b))
             if isinstance(lo, Poly) and lo.is_zero(): lo = None           # x[0:n] is x[:n]
             if isinstance(st, Poly) and st.real_const() == 1: st = None     # x[a:b:1] is x[a:b]
             if isinstance(v, (list, tuple)) and all(x is None or (isinstance(x, Poly) and x.real_const() is not None) for x in (lo, up, st)):
@@ -1332,6 +1363,10 @@ class Evaluator:
         if nm == 'itertools.chain.from_iterable' and len(args) == 1 and not kw:
             it_ = _iter_view(args[0])
             if isinstance(it_, (list, tuple)) and all(isinstance(x_, (list, tuple)) for x_ in it_): return [y_ for x_ in it_ for y_ in x_]
+            if isinstance(it_, (list, tuple)) and it_ and all(isinstance(a_, (list, Comp)) or (isinstance(a_, Opq) and a_.k and a_.k[0] in ('sorted', 'list', 'concat')) for a_ in it_):
+                out_ = it_[0]
+                for a_ in it_[1:]: out_ = s._binop(ast.Add(), out_, a_)
+                return out_
             return NotImplemented
         if root == 'itertools':
             if leaf == 'starmap' and len(args) == 2 and not kw:
@@ -1359,9 +1394,15 @@ class Evaluator:
                     if all(k_ in (True, False) for k_ in keep_): return [d_ for d_, k_ in zip(data_, keep_) if k_]
                 it_ = Opq('zip', data_, sel_); el_ = s.elem_of(it_, 0)
                 if isinstance(el_, tuple) and len(el_) == 2:
-                    return Comp(el_[0], [(it_, [s.truth(el_[1])])], 'list')
+                    b_, f_ = _fuse_iter2(_fuse_iter(it_))
+                    return Comp(el_[0], [(b_, f_ + [s.truth(el_[1])])], 'list')
                 return NotImplemented
             if leaf == 'count' and not args and not kw: return Opq('count')
+            if leaf == 'chain' and args and not kw and all(isinstance(a_, (list, Comp)) or (isinstance(a_, Opq) and a_.k and a_.k[0] in ('sorted', 'list', 'concat')) for a_ in args):
+                out_ = args[0]
+                for a_ in args[1:]: out_ = s._binop(ast.Add(), out_, a_)         # chaining list-valued terms visits the items of their concatenation
+                return out_
+            if leaf == 'repeat' and len(args) == 1 and not kw: return Opq('repeat', args[0])
             if leaf == 'repeat' and len(args) == 2 and isinstance(args[1], Poly) and args[1].real_const() is not None and args[1].real_const().denominator == 1:
                 return [args[0]] * int(args[1].real_const())
             return NotImplemented
@@ -1699,6 +1740,11 @@ class Evaluator:
             return Opq('type', a)
         if name == 'sorted' and len(args) == 1 and not kw and isinstance(a, (list, tuple)) and all(isinstance(x, str) for x in a):
             return sorted(a)
+        if name == 'sorted' and len(args) == 1 and set(kw) == {'key'} and isinstance(a, (list, tuple)) and len(a) == 2 and _is_callable_term(kw['key']):
+            # a stable sort of two items by a truth-valued key swaps them exactly when the first has the key and the second has not
+            k0, k1 = (s.apply(kw['key'], [x_], {}, mod, depth) for x_ in a)
+            if all(isinstance(k_, bool) or _is_boolterm(k_) for k_ in (k0, k1)):
+                return s.mkcond(s.mkbool('and', [s.truth(k0), s.negate(s.truth(k1))]), [a[1], a[0]], [a[0], a[1]])
         if name in ('sorted', 'list', 'tuple', 'set') and len(args) == 1 and not kw and isinstance(a, dict) and all(isinstance(x, str) for x in a):
             ks_ = sorted(a) if name == 'sorted' else list(a)
             return ks_ if name != 'set' else Opq('set', *ks_)
@@ -1740,6 +1786,10 @@ class Evaluator:
             vals_ = range(*[int(x.real_const()) for x in args])
             if len(vals_) <= 64: return [Poly.const(v_) for v_ in vals_]            # a concrete range is the list of its numbers
         if name == 'zip' and set(kw) <= {'strict'}: kw = {}                  # strict only adds a length check
+        if name == 'zip' and args and not kw and any(isinstance(x, (list, tuple)) for x in args) and any(isinstance(x, Opq) and len(x.k) == 2 and x.k[0] == 'repeat' for x in args) \
+                and all(isinstance(x, (list, tuple, str)) or (isinstance(x, Opq) and len(x.k) == 2 and x.k[0] == 'repeat') for x in args):
+            n_ = min(len(x) for x in args if isinstance(x, (list, tuple, str)))
+            args = [x if isinstance(x, (list, tuple, str)) else [x.k[1]] * n_ for x in args]          # repeat(x) supplies as many x as the others have items
         if name == 'zip' and args and not kw and all(isinstance(x, (list, tuple, str)) for x in args):
             return [tuple(t_) for t_ in zip(*args)]                         # concrete sequences (a string iterates its characters)
         if name == 'enumerate' and len(args) == 1 and isinstance(a, (list, tuple)) and (not kw or (set(kw) == {'start'} and isinstance(kw['start'], Poly) and kw['start'].is_zero())):
@@ -1760,6 +1810,9 @@ class Evaluator:
                 return [s.apply(args[0], [x_], {}, mod, depth) for x_ in args[1]]      # concrete sequence: element by element
             it_ = _iter_view(args[1]); x_ = s.elem_of(it_, 0)
             return Comp(s.apply(args[0], [x_], {}, mod, depth), [(_fuse_iter(it_), [])], 'list')
+        if name in ('zip', 'enumerate', 'sorted', 'reversed'):
+            # a generator handed to a consumer of its items is the list of its items
+            args = [Comp(x_.elt, x_.gens, 'list') if isinstance(x_, Comp) and x_.kind == 'gen' else x_ for x_ in args]
         if name in ('zip', 'enumerate', 'set', 'sorted', 'any', 'all', 'min', 'max', 'range', 'map', 'reversed', 'iter', 'next', 'hasattr', 'getattr', 'print', 'filter', 'frozenset'):
             return Opq(name, *args, *[Opq('kw', k, v) for k, v in sorted(kw.items())])
         if name in ('ValueError', 'KeyError', 'TypeError', 'AttributeError', 'Exception', 'IndexError'): return Opq('exc', name)
@@ -1825,6 +1878,8 @@ class Evaluator:
         if isinstance(a, Cond):
             return Cond(a.g, s.npcall(name, [a.a] + list(args[1:]), kw), s.npcall(name, [a.b] + list(args[1:]), kw))
         if name == 'isfinite': return True if s.assume_finite else Opq('isfinite', a)
+        if name in ('logical_not', 'invert') and len(args) == 1 and not kw and isinstance(a, Comp) and a.kind in ('list', 'gen') and _is_boolterm(a.elt):
+            return Comp(s.negate(a.elt), a.gens, 'list')          # element-wise negation of a list of truth values
         # block assembly normal form: hcat(parts...) / vcat(parts...), nested same-kind joins flattened
         if name in ('hstack', 'vstack', 'concatenate', 'row_stack') and isinstance(a, (Comp, Opq)) and (isinstance(a, Comp) or a.k[0] == 'concat'):
             # stacking a comprehension (or a concatenation of lists / comprehensions): one block of rows per generator
@@ -2734,7 +2789,8 @@ def _fuse_iter(it):
         if isinstance(it, Comp) and it.kind in ('list', 'gen') and len(it.gens) == 1 and not it.gens[0][1]:
             it = it.gens[0][0]; continue
         if isinstance(it, Opq) and it.k and it.k[0] == 'zip' and len(it.k) >= 2:
-            bases = [_fuse_iter(a) for a in it.k[1:]]
+            bases = [_fuse_iter(a) for a in it.k[1:] if not (isinstance(a, Opq) and len(a.k) == 2 and a.k[0] == 'repeat')]      # repeat(x) never ends
+            if not bases: break
             if all(same(b, bases[0]) for b in bases[1:]) and not isinstance(bases[0], (list, tuple, dict)):
                 it = bases[0]; continue
         break
@@ -2862,6 +2918,9 @@ def _iter_view(it):
     """what a loop / comprehension iterates: a defensive copy list(x) / tuple(x) / iter(x) iterates x"""
     while isinstance(it, Opq) and it.k and it.k[0] in ('list', 'tuple', 'iter') and len(it.k) == 2 and not (isinstance(it.k[1], Comp) and it.k[1].kind == 'set'):
         it = it.k[1]
+    if isinstance(it, Opq) and len(it.k) >= 2 and it.k[0] in ('np.zeros', 'np.ones') and isinstance(it.k[1], Poly) and all(isinstance(x_, Opq) and x_.k[0] == 'kw' and x_.k[1] == 'dtype' for x_ in it.k[2:]):
+        n_ = it.k[1].real_const()
+        if n_ is not None and n_.denominator == 1 and 0 <= n_ <= 8: return [Poly.const(0 if it.k[0] == 'np.zeros' else 1)] * int(n_)      # iterating a short constant vector
     return it
 
 
